@@ -170,8 +170,11 @@ package server
 // family object; it does not write the FSM object, the state object or the
 // connection (assumed: the table code is not under contract yet).
 //@ contract (*fsmAddressFamily).dispose
+//@   props C07
 //@   trusted frame of dispose (tables are outside the contracts of this package)
 //@   requires f.fsm != nil
+//@   call RemoveContributingASN args asn uint32 requires asn == f.fsm.peer.localASN
+//@   call RemoveContributingClusterID args id uint32 requires f.fsm.peer.routeReflectorClient && id == f.fsm.peer.clusterID
 //@   preserves type FSM, establishedState
 //@   preserves f.fsm.con
 
@@ -308,3 +311,17 @@ package server
 //@ contract (*openSentState).openMsgReceived
 //@   props C24
 //@   call[C24] collisionHandling requires s.fsm.neighborID == openMsg.BGPIdentifier
+
+// Property C12: a policy replacement is skipped only when the new chain equals
+// the chain of the same direction that is in force.
+//@ contract (*fsmAddressFamily).replaceImportFilterChain
+//@   props C12
+//@   nosafety
+//@   requires f != nil
+//@   call Equal args d filter.Chain requires len(d) == len(f.importFilterChain) && verif_arrayof(d) == verif_arrayof(f.importFilterChain)
+
+//@ contract (*fsmAddressFamily).replaceExportFilterChain
+//@   props C12
+//@   nosafety
+//@   requires f != nil
+//@   call Equal args d filter.Chain requires len(d) == len(f.exportFilterChain) && verif_arrayof(d) == verif_arrayof(f.exportFilterChain)
